@@ -1,6 +1,7 @@
 //! Engine E2 `store-mon`: monitors over the real on-chain programs executed in `hostsvm`,
 //! plus direct monitors on program state types.
 #![allow(clippy::too_many_arguments)]
+pub mod sim;
 pub mod world;
 
 mod c17;
